@@ -96,21 +96,34 @@ func c14Split(e *c14env) {
 		}
 		return true
 	})
-	var loop *ast.RangeStmt
-	for _, rs := range c14ranges(f.Body) {
-		if o := c14obj(f, rs.X); o != nil && c14isParam(f, o) {
-			if b, ok := o.Type().Underlying().(*types.Basic); ok && b.Info()&types.IsString != 0 {
-				loop = rs
-			}
+	// the character loop: any element-wise loop over the string parameter (runes or bytes)
+	var loop ast.Stmt
+	var loopIt *c14iter
+	for _, l := range c14loops(f.Body) {
+		it := c14iterOf(f, l)
+		if it == nil {
+			continue
+		}
+		if o := c14obj(f, it.slice); o != nil && c14isParam(f, o) && c14isStr(o.Type()) {
+			loop, loopIt = l, it
 		}
 	}
 	if result == nil || loop == nil {
 		c.Errorf("R-C14-7: anchor: %s: cannot identify the result slice / the loop over the topic string", cons)
 		return
 	}
-	charID, _ := loop.Value.(*ast.Ident)
+	var charID *ast.Ident
+	if loopIt.elem != nil {
+		ast.Inspect(loop, func(n ast.Node) bool {
+			if id, ok := n.(*ast.Ident); ok && charID == nil && f.Info.Defs[id] == loopIt.elem {
+				charID = id
+			}
+			return true
+		})
+	}
+	loopBody := c14loopBody(loop)
 	flags := map[types.Object]*ast.Ident{}
-	ast.Inspect(loop.Body, func(n ast.Node) bool {
+	ast.Inspect(loopBody, func(n ast.Node) bool {
 		if as, ok := n.(*ast.AssignStmt); ok && len(as.Lhs) == len(as.Rhs) {
 			for i, l := range as.Lhs {
 				id, ok := l.(*ast.Ident)
@@ -226,12 +239,15 @@ func c14Split(e *c14env) {
 
 	res := analyze(c, f, flow.Config{
 		NoHavoc: true,
+		// predicates such as wildcardNotAlone(level, flag) are interpreted in place: what they test
+		// about their arguments is known in this function's vocabulary
+		Inline: inlineSamePkg(f),
 		OnBlock: func(st *flow.State, b *cfg.Block) {
-			if b.Stmt != ast.Stmt(loop) {
+			if b.Stmt != loop {
 				return
 			}
-			switch b.Kind {
-			case cfg.KindRangeBody:
+			switch {
+			case c14isBody(b.Kind):
 				st.Set(c14sInC, flow.True)
 				// the cursor moves: a level closed earlier can no longer be tested
 				if st.Is(c14sPending, flow.True) {
@@ -239,7 +255,7 @@ func c14Split(e *c14env) {
 					st.Set(c14sPending, flow.Unknown)
 				}
 				clearCur(st)
-			case cfg.KindRangeLoop:
+			case c14isHead(b.Kind):
 				if st.Is(c14sInC, flow.True) && (st.Is(plusKey, flow.True) || st.Is(hashKey, flow.True)) {
 					raised++
 					if !flagTrue(st) && badRaise == nil {
